@@ -104,6 +104,14 @@ def run(chk, tier, seed):
         "".join("let c%d_%d = binom(%d, %d);\n" % (nn, k, nn, k) for nn in (5, 20, 40, 70) for k in range(0, nn + 1, max(1, nn // 10)) ) + \
         "".join("let d%d_%d = binom(%d, %d);\n" % (nn, k - 1, nn, k - 1) for nn in (5, 20, 40, 70) for k in range(1, nn + 1, max(1, nn // 10)) if (k - 1) % max(1, nn // 10) != 0)
     jobs.append({"id": "fact", "src": fsrc, "observe": NAMES.findall(fsrc)})
+    # integer roots, multinomial coefficients, stepped factorials (library functions written in xray / native loops)
+    roots = [(a, b) for a in (0, 1, 2, 3, 4, 8, 9, 15, 16, 17, 26, 27, 28, 99, 100, 101, 2 ** 20 - 1, 2 ** 20, 2 ** 20 + 1, 10 ** 6) for b in (2, 3)]
+    triples = [(0, 0, 0), (1, 0, 0), (1, 1, 1), (2, 3, 4), (5, 0, 7), (10, 10, 10), (20, 15, 30), (33, 1, 40)]
+    msrc = "".join("let fr%d = floor_root(%d, %d);\nlet cr%d = ceil_root(%d, %d);\n" % (i, a, b, i, a, b) for i, (a, b) in enumerate(roots))
+    msrc += "".join("let mn%d = multinom([%d, %d, %d]);\nlet ma%d = binom(%d, %d);\nlet mb%d = binom(%d, %d);\n" % (i, a, b, c, i, a + b + c, a, i, b + c, b)
+                    for i, (a, b, c) in enumerate(triples))
+    msrc += "".join("let fs%d_%d = factorial(%d, %d);\n" % (st, n, n, st) for st in (2, 3) for n in range(0, 26))
+    jobs.append({"id": "roots", "src": msrc, "observe": NAMES.findall(msrc), "_roots": roots, "_triples": triples, "limits": {"calls": 10 ** 7}})
     # integers that a double holds exactly: int -> float -> int (floor / ceil / trunc) is the identity on them
     exact = set()
     for k in (0, 1, 30, 31, 32, 52, 53, 54, 62, 63, 64, 65, 100, 127, 128, 511, 1000, 1023):
@@ -143,6 +151,37 @@ def run(chk, tier, seed):
                         continue
                     ev(j, {"ev": "text", "a": limbs(x), "parsed": limbs(d["v"])}, "%s(to_float(%d))" % (fn, x))
                     ev(j, {"ev": "repr", "a": limbs(d["v"]), "short": d["repr"] == "S"}, "representation of %s(to_float(%d)) = %s" % (fn, x, d["v"]))
+            continue
+        if j["id"] == "roots":
+            for i, (a, b) in enumerate(j["_roots"]):
+                fr, cr = v.get("fr%d" % i, {}), v.get("cr%d" % i, {})
+                if fr.get("t") == "int":
+                    ev(j, {"ev": "froot", "a": limbs(a), "b": b, "r": limbs(fr["v"])}, "floor_root(%d, %d)" % (a, b))
+                else:
+                    chk.violation("floor_root(%d, %d) is not an integer: %s" % (a, b, fr), {"kind": "bigint", "source": j["src"], "binding": "fr%d" % i}, finding_key="root:floor")
+                if a > 0:
+                    if cr.get("t") == "int":
+                        ev(j, {"ev": "croot", "a": limbs(a), "b": b, "r": limbs(cr["v"])}, "ceil_root(%d, %d)" % (a, b))
+                    else:
+                        chk.violation("ceil_root(%d, %d) is not an integer: %s" % (a, b, cr), {"kind": "bigint", "source": j["src"], "binding": "cr%d" % i}, finding_key="root:ceil")
+            for i, (a, b, c) in enumerate(j["_triples"]):
+                mn, ma, mb = v.get("mn%d" % i, {}), v.get("ma%d" % i, {}), v.get("mb%d" % i, {})
+                if all(x.get("t") == "int" for x in (mn, ma, mb)):
+                    ev(j, {"ev": "multinom", "r": limbs(mn["v"]), "c1": limbs(ma["v"]), "c2": limbs(mb["v"])}, "multinom([%d, %d, %d])" % (a, b, c))
+                else:
+                    chk.violation("multinom([%d, %d, %d]) / binom did not yield integers: %s %s %s" % (a, b, c, mn, ma, mb), {"kind": "bigint", "source": j["src"], "binding": "mn%d" % i}, finding_key="multinom")
+            for st in (2, 3):
+                for n in range(0, 26):
+                    cur = v.get("fs%d_%d" % (st, n), {})
+                    if cur.get("t") != "int":
+                        chk.violation("factorial(%d, %d) is not an integer: %s" % (n, st, cur), {"kind": "bigint", "source": j["src"], "binding": "fs%d_%d" % (st, n)}, finding_key="factstep")
+                    elif n <= st:
+                        if int(cur["v"]) != max(n, 1):
+                            chk.violation("factorial(%d, %d) = %s" % (n, st, cur["v"]), {"kind": "bigint", "source": j["src"], "binding": "fs%d_%d" % (st, n)}, finding_key="factstep")
+                    else:
+                        prev = v.get("fs%d_%d" % (st, n - st), {})
+                        if prev.get("t") == "int":
+                            ev(j, {"ev": "factstep", "n": n, "r": limbs(cur["v"]), "prev": limbs(prev["v"])}, "factorial(%d, %d)" % (n, st))
             continue
         if j["id"] == "fact":
             for k in range(1, 31):
